@@ -614,6 +614,12 @@ def body_rewrite(data) -> Outcome:
     new_axes = data["new_axes"]
     fresh = [ax for ax in new_axes if ax not in used]
     out.labels.append("add-dup" if len(fresh) < len(new_axes) else f"add-{len(new_axes)}-new")
+    try:  # use the receiver first (its derived attributes may be memoised) -- the result must not inherit them
+        _ = (m.external_indices, m.input_indices, m.output_indices)
+        if m.external_indices:
+            m.input_keys(tuple(2 for _ in m.external_indices), 0)
+    except Exception:  # noqa: BLE001
+        pass
     try:
         r = m.add_axes(*new_axes)
     except ValueError as e:
@@ -636,6 +642,16 @@ def body_rewrite(data) -> Outcome:
                 try:
                     if r != build(want_ast) or MapSpec.from_string(str(r)) != r:
                         out.fail("add_axes-result-not-equal-to-rebuilt", f"{r!s}")
+                    else:
+                        twin = build(want_ast)
+                        for attr in ("external_indices", "input_indices", "output_indices", "input_names", "output_names"):
+                            if getattr(r, attr) != getattr(twin, attr):
+                                out.fail(f"add_axes-result-{attr}-differs-from-rebuilt", f"{r!s}: {getattr(r, attr)} vs {getattr(twin, attr)}")
+                        shp = tuple(2 for _ in twin.external_indices)
+                        if shp and r.input_keys(shp, 1) != twin.input_keys(shp, 1):
+                            out.fail("add_axes-result-input_keys-differ-from-rebuilt", f"{r!s}")
+                        if shp and r.output_key(shp, 1) != twin.output_key(shp, 1):
+                            out.fail("add_axes-result-output_key-differs-from-rebuilt", f"{r!s}")
                 except Exception as e:  # noqa: BLE001
                     out.fail(exc_bucket(e, "add_axes-result-not-wellformed"), f"{r!s}: {exc_detail(e)}")
             if ast_of(m) != ast:
